@@ -751,33 +751,11 @@ def autolen_values(rng, n_random):
 
 
 # ====================================================================== the check
-def run(chk, args):
-    chk.trusted += ["CPython dict / OrderedDict iteration order is mirrored by association lists",
-                    "Python object identity of _Field objects is mirrored by indices into the model's store"]
-    chk.assumptions += [
-        "identifiers and tags are strings, lengths/positions/values are Python ints",
-        "values given to automatically sized fields are below 2^47: there int(log(v,2))+1 equals the bit length "
-        "(measured on every run; above, the float formula may be one bit wider, never narrower)",
-        "a history ends at the first exception that is not ValueError/UnavailableFieldError/UnknownTagError "
-        "(_Tree.add_field dies with RecursionError when the adding instance holds values of fields of two different "
-        "child scopes; the tree is then left with ()-keyed children)"]
-    built = chk.prove()
-    corpus_path = lib.os.path.join(lib.VERIF, "corpus", "C08.json")
-    corpus = json.load(open(corpus_path)) if lib.os.path.exists(corpus_path) else []
-    if args.replay:
-        rp = json.load(open(args.replay))
-        cases = [f["replay"]["case"] for f in rp.get("failures", []) + rp.get("no_longer_checks", [])
-                 if "case" in f.get("replay", {})]
-    else:
-        n = 1500 if chk.tier == "quick" else 60000
-        cases = corpus + [gen_case(chk.rng, i) for i in range(n)]
-        if chk.tier == "thorough":
-            cases += exhaustive_small()
-    # ---------------------------------------------------------------- implementation, phase 1
-    size = 250 if chk.tier == "quick" else 2500
+def process(chk, cases, built, stats):
+    """one batch through the whole pipeline: implementation, oracle, probes, model, verified checker"""
+    size = 250 if chk.tier == "quick" else 500
     chunks = [cases[i:i + size] for i in range(0, len(cases), size)]
     results = [o for part in chk.impl_parallel("impl_c08.py", chunks) for o in part]
-    seen_keys = set()
     flats = []
     for c, res in zip(cases, results):
         if res == ["hang"] or res == ["skipped"]:
@@ -789,11 +767,11 @@ def run(chk, args):
         fl = oracle(c, res, lambda key, what: found.append((key, what)))
         flats.append(fl)
         for key, what in found[:3]:
-            if (key, json.dumps(c, sort_keys=True)) not in seen_keys:
-                seen_keys.add((key, json.dumps(c, sort_keys=True)))
+            if stats["reported"].get(key, 0) < 20:
+                stats["reported"][key] = stats["reported"].get(key, 0) + 1
                 chk.fail_input(key, what, dict(case=c, observed=res["outs"]))
         chk.count("style:" + c.get("style", "corpus"))
-        chk.count("L:%d" % (c["L"] // 8 * 8))
+        chk.count("L:%d-%d" % (c["L"] // 8 * 8, c["L"] // 8 * 8 + 7))
         nf = sum(1 for op, r in zip(c["ops"], res["outs"]) if op[0] == "add" and r[0] == "none")
         chk.count("fields:%d" % nf)
         for op, r in zip(c["ops"], res["outs"]):
@@ -803,11 +781,11 @@ def run(chk, args):
             if fl.pos and fl.max_copresent_width() == c["L"]:
                 chk.count("exact-fill")
         chk.note_case(c, nontrivial(c, res))
-    mid = len(cases) // 2
-    if cases:
+    if cases and len(chk.samples) < 2:
+        mid = len(cases) // 2
         chk.sample(dict(case=cases[mid], implementation=[r[:2] for r in results[mid]["outs"]]
                         if isinstance(results[mid], dict) else results[mid]))
-    # ---------------------------------------------------------------- phase 2: brute-force probes
+    # ---------------------------------------------------------------- brute-force probes
     pcases, pidx = [], []
     for i, (c, res, fl) in enumerate(zip(cases, results, flats)):
         if fl is None or not fl.fields or "layout" not in res:
@@ -824,80 +802,118 @@ def run(chk, args):
         pidx.append((i, probes))
     chunks = [pcases[i:i + size] for i in range(0, len(pcases), size)]
     presults = [o for part in chk.impl_parallel("impl_c08.py", chunks) for o in part]
-    nprobe = 0
     for (i, probes), pc, pres in zip(pidx, pcases, presults):
         if not isinstance(pres, dict) or "probes" not in pres:
             continue
         found = []
         oracle_probes(cases[i], flats[i], probes, pres, lambda key, what: found.append((key, what)))
-        nprobe += len(probes)
+        stats["probes"] += len(probes)
         for key, what in found[:3]:
-            chk.fail_input(key, what, dict(case=cases[i], probes=pc["probes"]))
-    chk.count("probes(complete assignments)", nprobe)
+            if stats["reported"].get(key, 0) < 20:
+                stats["reported"][key] = stats["reported"].get(key, 0) + 1
+                chk.fail_input(key, what, dict(case=cases[i], probes=pc["probes"]))
+    # ---------------------------------------------------------------- model
+    if not (chk.model_ok and built):
+        return
+    good = [(c, res) for c, res in zip(cases, results) if isinstance(res, dict)]
+    vals = chk.coq_eval(HEADER, [case_lit(c) for c, _ in good], shard=150 if chk.tier == "quick" else 350)
+    for (c, res), v in zip(good, vals):
+        chk.traces_validated += 1
+        stats["histories"] += 1
+        m = [canon_model(o) for o in v]
+        im = [canon_impl(r) for r in res["outs"]]
+        if m != im:
+            stats["disagree"] += 1
+            if stats["disagree"] <= 3:
+                k = next((j for j in range(min(len(m), len(im))) if m[j] != im[j]), min(len(m), len(im)))
+                chk.disagree("history: first difference at op %d %r: model %r, implementation %r"
+                             % (k, c["ops"][k] if k < len(c["ops"]) else None,
+                                m[k] if k < len(m) else None, im[k] if k < len(im) else None),
+                             dict(case=c, observed=res["outs"]))
+    # verified checker on the real object's layout
+    lay = [(c, res) for c, res in good if "layout" in res and
+           any(op[0] == "assign" and r[0] == "none" for op, r in zip(c["ops"], res["outs"]))
+           and all(s is not None and l is not None for l, s, _, _ in res["layout"][1])]
+    hdr = HEADER + "Require Import Rig.Spec.BitField.\n"
+    vs = chk.coq_eval(hdr, ["check_bitfield %s %s %s" % (zlit(c["L"]), tree_lit(res["layout"][0]),
+                                                         store_lit(res["layout"][1])) for c, res in lay],
+                      shard=150 if chk.tier == "quick" else 350, name="layout")
+    for (c, res), v in zip(lay, vs):
+        stats["layouts"] += 1
+        if v is not True:
+            stats["layout_bad"] += 1
+            if stats["layout_bad"] <= 5:
+                chk.fail_input("layout-rejected-by-verified-checker",
+                               "check_bitfield = false on the layout of the real object after the history",
+                               dict(case=c, layout=res["layout"]))
+
+
+def run(chk, args):
+    chk.trusted += ["CPython dict / OrderedDict iteration order is mirrored by association lists",
+                    "Python object identity of _Field objects is mirrored by indices into the model's store"]
+    chk.assumptions += [
+        "identifiers and tags are strings, lengths/positions/values are Python ints",
+        "values given to automatically sized fields are below 2^47: there int(log(v,2))+1 equals the bit length "
+        "(measured on every run; above, the float formula may be one bit wider, never narrower)",
+        "a history ends at the first exception that is not ValueError/UnavailableFieldError/UnknownTagError "
+        "(_Tree.add_field dies with RecursionError when the adding instance holds values of fields of two different "
+        "child scopes; the tree is then left with ()-keyed children)"]
+    built = chk.prove()
+    corpus_path = lib.os.path.join(lib.VERIF, "corpus", "C08.json")
+    corpus = json.load(open(corpus_path)) if lib.os.path.exists(corpus_path) else []
+    stats = dict(reported={}, probes=0, histories=0, disagree=0, layouts=0, layout_bad=0)
+    try:
+        if args.replay:
+            rp = json.load(open(args.replay))
+            cases = [f["replay"]["case"] for f in rp.get("failures", []) + rp.get("no_longer_checks", [])
+                     if "case" in f.get("replay", {})]
+            process(chk, cases, built, stats)
+        elif chk.tier == "quick":
+            process(chk, corpus + [gen_case(chk.rng, i) for i in range(1500)], built, stats)
+        else:
+            process(chk, corpus + exhaustive_small(), built, stats)
+            for b in range(5):
+                process(chk, [gen_case(chk.rng, b * 4000 + i) for i in range(4000)], built, stats)
+    except RuntimeError as e:
+        chk.oblige("correspondence:model-evaluates", False, str(e))
+    chk.count("probes(complete assignments)", stats["probes"])
+    if chk.model_ok and built:
+        chk.oblige("correspondence:histories (%d histories, every return value and exception class equal)"
+                   % stats["histories"], stats["disagree"] == 0, "%d histories differ" % stats["disagree"])
+        chk.oblige("validator:check_bitfield accepts the real object's layout (%d layouts)" % stats["layouts"],
+                   stats["layout_bad"] == 0)
     # ---------------------------------------------------------------- auto length formula
-    vals = autolen_values(chk.rng, 2000 if chk.tier == "quick" else 100000)
-    lens = chk.impl("impl_c08.py", [dict(values=[v for v in vals if v >= 1])])[0]["lens"]
+    vals = [v for v in autolen_values(chk.rng, 2000 if chk.tier == "quick" else 100000) if v >= 1]
+    lens = chk.impl("impl_c08.py", [dict(values=vals)])[0]["lens"]
     wider = 0
-    for v, l in zip([v for v in vals if v >= 1], lens):
+    exact = True
+    for v, l in zip(vals, lens):
         if l < v.bit_length():
             chk.fail_input("autolen-too-narrow", "a field whose largest value is %d gets %d bits" % (v, l),
                            dict(value=v, length=l))
         elif l > v.bit_length():
             wider += 1
             if v < (1 << 47):
-                chk.oblige("autolen:model-exact-below-2^47", False, "value %d: code %d bits, bit length %d" % (v, l, v.bit_length()))
+                exact = False
+                chk.oblige("autolen:model-exact-below-2^47", False,
+                           "value %d: code %d bits, bit length %d" % (v, l, v.bit_length()))
     chk.count("autolen:values", len(lens))
     chk.count("autolen:wider-than-bit-length(all >= 2^48-2)", wider)
-    chk.oblige("autolen:int(log(v,2))+1 never narrower than the bit length; equal below 2^47 (%d values)" % len(lens), True)
-    # ---------------------------------------------------------------- model
-    if chk.model_ok and built:
-        try:
-            good = [(c, res) for c, res in zip(cases, results) if isinstance(res, dict)]
-            vals = chk.coq_eval(HEADER, [case_lit(c) for c, _ in good], shard=150 if chk.tier == "quick" else 400)
-            bad = 0
-            for (c, res), v in zip(good, vals):
-                chk.traces_validated += 1
-                m = [canon_model(o) for o in v]
-                im = [canon_impl(r) for r in res["outs"]]
-                if m != im:
-                    k = next((j for j in range(min(len(m), len(im))) if m[j] != im[j]), min(len(m), len(im)))
-                    chk.disagree("history: first difference at op %d %r: model %r, implementation %r"
-                                 % (k, c["ops"][k] if k < len(c["ops"]) else None,
-                                    m[k] if k < len(m) else None, im[k] if k < len(im) else None),
-                                 dict(case=c, observed=res["outs"]))
-                    bad += 1
-                    if bad >= 3:
-                        break
-            if not bad:
-                chk.oblige("correspondence:histories (%d histories, every return value and exception class equal)"
-                           % len(good), True)
-            # verified checker on the real object's layout
-            lay = [(c, res) for c, res in good if "layout" in res and
-                   any(op[0] == "assign" and r[0] == "none" for op, r in zip(c["ops"], res["outs"]))
-                   and all(s is not None and l is not None for l, s, _, _ in res["layout"][1])]
-            hdr = HEADER + "Require Import Rig.Spec.BitField.\n"
-            vs = chk.coq_eval(hdr, ["check_bitfield %s %s %s" % (zlit(c["L"]), tree_lit(res["layout"][0]),
-                                                                 store_lit(res["layout"][1])) for c, res in lay],
-                              shard=150 if chk.tier == "quick" else 400, name="layout")
-            nbad = 0
-            for (c, res), v in zip(lay, vs):
-                if v is not True:
-                    nbad += 1
-                    chk.fail_input("layout-rejected-by-verified-checker",
-                                   "check_bitfield = false on the layout of the real object after the history",
-                                   dict(case=c, layout=res["layout"]))
-            chk.oblige("validator:check_bitfield accepts the real object's layout (%d layouts)" % len(lay), nbad == 0)
-        except RuntimeError as e:
-            chk.oblige("correspondence:model-evaluates", False, str(e))
+    if exact:
+        chk.oblige("autolen:int(log(v,2))+1 never narrower than the bit length; equal below 2^47 (%d values)"
+                   % len(lens), True)
     chk.coverage["rule"] = (
         "random histories of add_field / __call__ / assign_fields / get_value / get_mask(tag|field) / get_tags / "
         "get_location_and_length / attribute / enabled_fields / potential_fields on one BitField and its derived "
         "instances: styles flat, chain (children keyed by one field), general (multi-field scopes), explicit positions, "
         "mixed, incremental (fields added after a layout); <= 14 fields, scope depth <= 5, sibling scopes re-use names, "
         "tags, fixed and automatic lengths/positions, lengths 1..40 with about half exact fills of the widest co-present "
-        "set, a few malformed arguments; then all complete assignments over small values (capped) probed for key "
-        "distinctness, readback, mask union, tag closure; non-trivial = >= 2 accepted fields and a successful "
-        "assign_fields; distinct by hash of the whole history")
+        "set, a few malformed arguments (zero length, negative / too large positions, negative values); then all "
+        "complete assignments over small values (capped) probed for key distinctness, readback, mask union, tag "
+        "closure; thorough tier adds the exhaustive family of exhaustive_small(); non-trivial = >= 2 accepted fields "
+        "and a successful assign_fields; distinct by hash of the whole history")
+    if chk.tier == "thorough":
+        chk.coverage["exhaustive_family"] = exhaustive_small.__doc__
 
 
 def exhaustive_small():
